@@ -193,8 +193,20 @@ def recorded_from_pre_value(ck, fn, rec_stmt, field, normal_region, closure):
     cands = []     # (expr, block where the value is produced)
     if rv["k"] == "use" and rv["op"].get("k") in ("copy", "move") and "p" not in rv["op"]["pl"]:
         l = rv["op"]["pl"]["l"]
-        for dd in df.defs_of(fn).all(l):
-            if dd[1] in normal_region or len(df.defs_of(fn).all(l)) == 1:
+        alld = []
+        top = df.defs_of(fn).all(l)
+        for dd0 in top:
+            if not (dd0[1] in normal_region or len(top) == 1):
+                continue
+            # (through plain copies: the result slot of a helper that was inlined, a value saved before the application)
+            if dd0[0] == "stmt" and dd0[3]["rv"]["k"] == "use" and dd0[3]["rv"]["op"].get("k") in ("copy", "move") and "p" not in dd0[3]["rv"]["op"]["pl"] and \
+                    dd0[3]["rv"]["op"]["pl"]["l"] > fn.arg_count:
+                sub = df.defs_through_copies(fn, dd0[3]["rv"]["op"]["pl"]["l"])
+                alld.extend(sub if sub else [dd0])
+            else:
+                alld.append(dd0)
+        for dd in alld:
+            if True:
                 if dd[0] == "stmt":
                     cands.append((df.rvalue_expr(fn, dd[3]["rv"]), dd[1], dd[3]))
                 elif dd[0] == "call":
